@@ -83,8 +83,16 @@ def spell(rng, a, b, unit, pns):
 def render(rng, f, unit, pns, record, unless=False, consts=None):
     """Spec text with every interval spelled; `record` collects (a,b,spelling).  `unless`: the bounded until operators are
     written `unless` (sugar for `always[0,b] p or p until[a,b] q`: the parser derives a second interval from the written one)."""
+    same = {}
+    keep_same = rng.random() < 0.7
+
     def bound_pair(node):
+        # a sub-formula that occurs twice is mostly spelled the same way both times (two nodes with one text)
+        if keep_same and node in same:
+            record.append((node[2], node[3], same[node]))
+            return same[node]
         sp = spell(rng, node[2], node[3], unit, pns)
+        same[node] = sp
         record.append((node[2], node[3], sp))
         if consts is not None and rng.random() < 0.25:
             # one of the two numerals is a declared constant (`const float K0 = 0.3` ... `[0:K0 s]`): same value, same unit rule
@@ -144,6 +152,11 @@ def gen_case(rng):
         nb = sum(1 for x in F.subformulas(f) if x[0] in ("tb1", "tb2"))
         if 1 <= nb <= 4:
             break
+    if rng.random() < 0.2:
+        # the same bounded sub-formula a second time (as text: two nodes that print alike)
+        subs = [x for x in F.subformulas(f) if x[0] in ("tb1", "tb2")]
+        if subs:
+            f = ("b", rng.choice(["and", "or"]), f, rng.choice(subs))
     n = rng.randint(2, 10)
     vs = F.variables(f) or ["a"]
     unless = monitor in ("offd", "past") and any(x[0] == "tb2" and x[1] == "until" for x in F.subformulas(f)) and rng.random() < 0.5
